@@ -1,6 +1,6 @@
 #!/bin/sh
 # runs every registered quick check on the current tree; prints one summary line per property
 cd /verif
-for id in $(python3 -c "import json; print(' '.join(sorted(p['id'] for p in json.load(open('props.json')))))"); do
+for id in $(bin/govc list | cut -d' ' -f1); do
   ./check $id quick | tail -1
 done
